@@ -203,7 +203,121 @@ func H_C13_noini(v *V) {
 	v.Assert(err != nil && isIni, "an option marked no-ini is unknown to the INI reader")
 }
 
+// H_C13_value: one entry with a longer value - whatever bytes the value
+// contains (comment characters after a blank, '=', brackets, ...), the entry
+// stores what --name=value stores.
+func H_C13_value(v *V) {
+	val := c14Value(v, v.Shape("lv"))
+	kind := v.Choice(3)
+	var text string
+	var flags []string
+	switch kind {
+	case 0:
+		text = "alias = " + val + "\n"
+		flags = []string{"--alpha=" + val}
+	case 1:
+		text = "[Application Options]\nlist = x\nl=" + val + "\n"
+		flags = []string{"--list=x", "--list=" + val}
+	case 2:
+		text = "mm = k:" + val + "\n"
+		flags = []string{"--mm=k:" + val}
+	}
+	a, errA := c13Parse(text, v.Choice(2) == 1, nil)
+	b, errB := c13Parse("", false, flags)
+	vObsErr(v, errA)
+	v.Assert(errA == nil && errB == nil, "a plain value is accepted from the INI text and from the flag")
+	if errA != nil || errB != nil {
+		return
+	}
+	v.Reach("success")
+	v.Assert(v.EqStr(a.Alpha, b.Alpha), "the entry stores the same value as the corresponding flag, whatever bytes the value contains")
+	v.Assert(v.EqStrs(a.L, b.L), "the entry appends the same element as the corresponding flag, whatever bytes the value contains")
+	v.Assert(len(a.M) == len(b.M) && v.EqStr(a.M["k"], b.M["k"]), "the entry stores the same map value as the corresponding flag, whatever bytes the value contains")
+}
+
+type c13S2 struct {
+	Val   string `long:"val"`
+	Only2 string `long:"only2"`
+}
+type c13SC struct {
+	Val   string `long:"val"`
+	OnlyC string `long:"onlyc"`
+}
+type c13S1 struct {
+	Val    string `long:"val"`
+	Only1  string `long:"only1"`
+	Second c13S2  `group:"Second" namespace:"s"`
+	Cmd    c13SC  `command:"cmd"`
+}
+
+// H_C13_sections: two entries under two section headers; the same key names
+// different options in different sections, and a key that the section's group
+// does not declare is an error on its own line - whatever was seen earlier.
+func H_C13_sections(v *V) {
+	headers := []string{"[Application Options]", "[Second]", "[cmd]"}
+	keys := []string{"Val", "Only1", "Only2", "OnlyC"}
+	// declared[section][key]
+	declared := [][]bool{{true, true, true, false}, {true, false, true, false}, {true, false, false, true}}
+	want := &c13S1{}
+	slot := func(sec, key int) *string {
+		switch {
+		case key == 1:
+			return &want.Only1
+		case key == 2:
+			return &want.Second.Only2
+		case key == 3:
+			return &want.Cmd.OnlyC
+		case sec == 0:
+			return &want.Val
+		case sec == 1:
+			return &want.Second.Val
+		}
+		return &want.Cmd.Val
+	}
+	text := ""
+	line := 0
+	badLine := 0
+	for e := 0; e < 2; e++ {
+		sec, key := v.Choice(3), v.Choice(4)
+		val := c14Value(v, 1)
+		text += headers[sec] + "\n" + keys[key] + " = " + val + "\n"
+		line += 2
+		if badLine == 0 {
+			if declared[sec][key] {
+				*slot(sec, key) = val
+			} else {
+				badLine = line
+			}
+		}
+	}
+	d := &c13S1{}
+	p := NewNamedParser("prog", None)
+	p.AddGroup("Application Options", "", d)
+	p.SubcommandsOptional = true
+	err := NewIniParser(p).Parse(strings.NewReader(text))
+	vObsErr(v, err)
+	if badLine != 0 {
+		v.Reach("unknown-key")
+		ie, isIni := err.(*IniError)
+		v.Assert(err != nil && isIni, "a key the section's group does not declare is an INI error")
+		if isIni {
+			v.Assert(int(ie.LineNumber) == badLine, "the error carries the line number of the offending entry")
+		}
+		return
+	}
+	v.Reach("success")
+	v.Assert(err == nil, "declared keys are accepted")
+	v.Assert(v.EqStr(d.Val, want.Val) && v.EqStr(d.Second.Val, want.Second.Val) && v.EqStr(d.Cmd.Val, want.Cmd.Val), "the same key under different section headers selects each section's own option")
+	v.Assert(v.EqStr(d.Only1, want.Only1) && v.EqStr(d.Second.Only2, want.Second.Only2) && v.EqStr(d.Cmd.OnlyC, want.Cmd.OnlyC), "every entry is applied to the option of the section it stands in")
+}
+
+// H_C14_sections: the same harness decides C14's unknown-option clause.
+func H_C14_sections(v *V) { H_C13_sections(v) }
+
 func init() {
+	vHarnesses["H_C13_sections"] = H_C13_sections
+	vHarnesses["H_C14_sections"] = H_C14_sections
+	vHarnesses["H_C13_value"] = H_C13_value
 	vHarnesses["H_C13_equiv"] = H_C13_equiv
 	vHarnesses["H_C13_noini"] = H_C13_noini
 }
